@@ -309,7 +309,7 @@ class C01(Check):
                    "any non-zero exit counts as the prescribed failure (its delivery is C17's business)",
                    "reference interpreter mcheck/lang/refint.py is the semantics (validated against the unchanged tree by this very check)"]
     chunksize = 16
-    quick_cap_s = 50
+    quick_cap_s = 300
     thorough_cap_s = 40 * 60
 
     def layers(self, tier):
